@@ -512,9 +512,19 @@ def run(ctx, rep):
     n = c11.check_shared_flags(ctx, RuleProxy(rep, 'C06.H', 'flags::'), only=lambda c: c is tree_base or c.has_base(tree_base.qualname))
     if n < 4:
         rep.incomplete('C06.H', 'flags::*', '', f"only {n} flag-clearing sites found in the time-tree models")
+    # the ratio / root-height parameters of a tree model built from JSON are one concatenated parameter: an assignment through it (or through a view) reaches the tree model
+    # only if the concatenation / view kinds forward every event and their setters notify (C11.H / C11.W rules on core/parameter.py)
+    from sa.members import Kinds
+    kinds_ = Kinds(ctx.classes)
+    for q in ('torchtree.core.parameter.CatParameter', 'torchtree.core.parameter.ViewParameter', 'torchtree.core.parameter.TransformedParameter'):
+        cls_ = ctx.classes.get(q)
+        c11.check_handlers(ctx, RuleProxy(rep, 'C06.H', 'handlers::'), kinds_, cls_)
+        c11.check_setters(ctx, RuleProxy(rep, 'C06.H', 'setters::'), cls_)
     # tips sit at *their* sampling time: sampling dates are stored in Taxa order, so a leaf's index must be the position of its taxon in that list
     from props import c02
     c02.check_leaf_index(ctx, rep, 'C06.F', 'tips::')
+    # a parent is at least as old as EACH of its children: nothing in the tree modules looks at one child only (C02.N child-symmetry rule)
+    c02.check_child_symmetry(ctx, RuleProxy(rep, 'C06.F', 'children::'))
     rep.rule('C06.C', "every conversion of sampling dates into tip heights follows one convention in the four sign cases of (earliest, most recent) date: the date itself when the earliest is zero, most recent − date otherwise")
     check_date_conventions(ctx, rep)
     check_dates_stay_with_their_taxon(ctx, rep)
